@@ -44,7 +44,7 @@ def probe_real(i, c, n):
 
 
 def make_pass(kind):
-    if kind in ('lines', 'lines-nonl'):
+    if kind in ('lines', 'lines-nonl', 'lines-ff'):
         from cvise.passes.lines import LinesPass
         return LinesPass('None', {})
     from cvise.passes.line_markers import LineMarkersPass
@@ -54,6 +54,8 @@ def make_pass(kind):
 def content(kind, ids):
     if kind == 'lines':
         return ''.join(f'L{i}\n' for i in ids)
+    if kind == 'lines-ff':        # form feeds / VT / FS inside lines: only "\n" ends a line
+        return ''.join(f'L{i}' + ('\x0c' if i % 2 else '\x0bq\x1c') + 'z\n' for i in ids)
     if kind == 'lines-nonl':      # the last line is not newline-terminated
         return '\n'.join(f'L{i}' for i in ids)
     if kind == 'markers-ind':     # some markers are indented ('^\\s*#\\s*[0-9]+' is what a marker is)
@@ -66,6 +68,8 @@ def present(kind, data):
     for line in data.decode().split('\n'):
         if kind in ('lines', 'lines-nonl') and line.startswith('L'):
             ids.append(int(line[1:]))
+        if kind == 'lines-ff' and line.startswith('L'):
+            ids.append(int(re.match(r'L([0-9]+)', line).group(1)))
         if kind in ('markers', 'markers-ind') and re.match(r'\s*# [0-9]+$', line):
             ids.append(int(line.strip()[2:]) - 1)
     return ids
@@ -329,8 +333,8 @@ def explore(ctx):
     ctx.sample({'probe': cases[len(cases) // 2][0], 'impl_output': cases[len(cases) // 2][1][:12]})
     # B. monotone runs on the real passes, C. random verdict sequences
     cases_mono, cases_seq = [], []
-    for kind in ('lines', 'markers', 'lines-nonl', 'markers-ind'):
-        for n in range(0, nsub + 1 if kind not in ('lines-nonl', 'markers-ind') else min(nsub, 6) + 1):
+    for kind in ('lines', 'markers', 'lines-nonl', 'markers-ind', 'lines-ff'):
+        for n in range(0, nsub + 1 if kind not in ('lines-nonl', 'markers-ind', 'lines-ff') else min(nsub, 6 if kind != 'lines-ff' else 5) + 1):
             for r in range(0, n + 1):
                 for req in itertools.combinations(range(n), r):
                     do_case(ctx, kind, n, 'mono', req, cases_mono, cases_seq)
